@@ -227,4 +227,31 @@ theorem lookup4_gray : ∀ code : Fin 16,
 
 theorem lookup_lengths : Generated.eulerLookup8.length = 16 ∧ Generated.eulerLookup4.length = 16 := by decide
 
+/-! ## the Euler model is Gray's bit-quad sum -/
+
+theorem quadCode_eq (b : Bin) (y x : Int) :
+    quadCode b y x = (if b.get y x then 1 else 0) + (if b.get y (x + 1) then 2 else 0) +
+      ((if b.get (y + 1) x then 4 else 0) + (if b.get (y + 1) (x + 1) then 8 else 0)) := by
+  unfold quadCode
+  rw [euler_powers]
+  simp [List.zipIdx]
+
+theorem quad_lookup (b : Bin) (conn8 : Bool) (y x : Int) :
+    (if conn8 then Generated.eulerLookup8 else Generated.eulerLookup4).getD (quadCode b y x) 0 =
+      grayQuad conn8 (b.get y x) (b.get y (x + 1)) (b.get (y + 1) x) (b.get (y + 1) (x + 1)) := by
+  rw [quadCode_eq]
+  cases conn8 <;> cases b.get y x <;> cases b.get y (x + 1) <;> cases b.get (y + 1) x <;>
+    cases b.get (y + 1) (x + 1) <;> decide
+
+/-- Gray's bit-quad sum over every 2×2 window that meets the image -/
+def graySum (b : Bin) (conn8 : Bool) : Int :=
+  ((List.range (b.rows + 1)).map fun (i : Nat) =>
+    ((List.range (b.cols + 1)).map fun (j : Nat) =>
+      grayQuad conn8 (b.get ((i : Int) - 1) ((j : Int) - 1)) (b.get ((i : Int) - 1) ((j : Int) - 1 + 1))
+        (b.get ((i : Int) - 1 + 1) ((j : Int) - 1)) (b.get ((i : Int) - 1 + 1) ((j : Int) - 1 + 1))).foldl (· + ·) 0).foldl (· + ·) 0
+
+theorem eulerModel4_eq_graySum (b : Bin) (conn8 : Bool) : eulerModel4 b conn8 = graySum b conn8 := by
+  unfold eulerModel4 graySum
+  simp only [quad_lookup]
+
 end Mahotas.C15
